@@ -5,18 +5,18 @@
 set -u
 dir=$(readlink -f "$1"); crate=$2
 wt=/tmp/sv-$$
-export CARGO_NET_OFFLINE=true CARGO_TARGET_DIR=/tmp/sv-target CARGO_TERM_COLOR=never
+export CARGO_NET_OFFLINE=true CARGO_TARGET_DIR=${SV_TARGET:-/tmp/sv-target} CARGO_TERM_COLOR=never
 git -C /repo worktree add -q --detach $wt HEAD || exit 2
 trap 'git -C /repo worktree remove --force $wt 2>/dev/null' EXIT
 pkg=$(grep -m1 '^name' $wt/$crate/Cargo.toml | sed 's/.*"\(.*\)".*/\1/')
 mkdir -p $wt/$crate/tests
 cp $dir/demo.rs $wt/$crate/tests/seed_demo.rs
 feat=""; [ "$pkg" = dashu-ratio ] && feat="--features dashu-float"
-( cd $wt && cargo test -p $pkg --test seed_demo $feat >/tmp/sv-demo0.log 2>&1 ); d0=$?
+( cd $wt && cargo test -p $pkg --test seed_demo $feat >/tmp/sv-demo0-$$.log 2>&1 ); d0=$?
 if ! git -C $wt apply $dir/patch.diff; then echo "RESULT patch-does-not-apply"; exit 1; fi
-( cd $wt && cargo test -p $pkg --test seed_demo $feat >/tmp/sv-demo1.log 2>&1 ); d1=$?
+( cd $wt && cargo test -p $pkg --test seed_demo $feat >/tmp/sv-demo1-$$.log 2>&1 ); d1=$?
 rm $wt/$crate/tests/seed_demo.rs
-( cd $wt && cargo test --workspace --no-fail-fast >/tmp/sv-suite.log 2>&1 ); s=$?
-pass=$(grep -E "^test result" /tmp/sv-suite.log | awk '{p+=$4; f+=$6} END {print p" passed, "f" failed"}')
+( cd $wt && cargo test --workspace --no-fail-fast >/tmp/sv-suite-$$.log 2>&1 ); s=$?
+pass=$(grep -E "^test result" /tmp/sv-suite-$$.log | awk '{p+=$4; f+=$6} END {print p" passed, "f" failed"}')
 echo "RESULT demo_without_patch_rc=$d0 demo_with_patch_rc=$d1 suite_rc=$s ($pass)"
-[ $d0 -eq 0 ] && [ $d1 -ne 0 ] && [ $s -eq 0 ] && echo "CONFIRMED" || { echo "NOT-CONFIRMED"; grep -E "error|panicked" /tmp/sv-demo0.log | head -3; }
+[ $d0 -eq 0 ] && [ $d1 -ne 0 ] && [ $s -eq 0 ] && echo "CONFIRMED" || { echo "NOT-CONFIRMED"; grep -E "error|panicked" /tmp/sv-demo0-$$.log | head -3; }
